@@ -152,7 +152,7 @@ func RangeMap[M ~map[K]V, K comparable, V any](site int, m M) iter.Seq2[K, V] {
 //go:norace
 func notePerm(site int, h uint64) {
 	// only used by single-task checks (C15/C06); never while tasks race
-	if active {
+	if active && ntasks > 1 {
 		return
 	}
 	if PermSeen == nil {
